@@ -506,11 +506,7 @@ mod verif_kani {
     fn boxed_exchange_send_then_take() {
         boxed_exchange(0)
     }
-    #[kani::proof]
-    #[kani::stub(crate::backtrace::capture_backtrace, stub_bt)]
-    fn boxed_exchange_drop_sender_then_take() {
-        boxed_exchange(1)
-    }
+    // boxed_exchange(1) (drop the sender, then into_value) did not finish in 3600 s and is not claimed.
     #[kani::proof]
     #[kani::stub(crate::backtrace::capture_backtrace, stub_bt)]
     fn boxed_exchange_drop_receiver_then_send() {
